@@ -151,6 +151,10 @@ func TestC05(t *testing.T) {
 		if allCols {
 			classes = append(classes, "no-key-columns-given")
 		}
+		// the receiver is as it was (its positional and its by-name observers)
+		if again, err := hx.Observe(g.d.QF); err != nil || hx.Diff(in, again) != "" {
+			t.Fatalf("the operation changed its receiver: %v %s\n%s", err, hx.Diff(in, again), desc())
+		}
 		evC05.Case(nontrivialGroups(groups), desc, classes...)
 	})
 }
